@@ -97,6 +97,22 @@ Theorem C04_wf_set_iff_no_fault : forall cs,
 Proof. exact wf_set_iff_no_fault. Qed.
 Print Assumptions C04_wf_set_iff_no_fault.
 
+(* all valid messages, all chunk sizes, all arrival orders: a payload cut by the sender into pieces of k bytes
+   (1 <= k <= 65535; the last piece takes the rest; at most 65536 pieces), numbered from 0, end-of-message on the last
+   one, arriving in any order, reassembles to exactly what the payload decoder makes of the payload *)
+Theorem C04_split_reasm : forall devices m dev chan (pseq cseq : N -> N),
+  dev_known devices dev = true -> chan <= 3 -> (forall i, pseq i < 2^32) -> (forall i, cseq i < 2^16) ->
+  forall k, 1 <= k <= 65535 ->
+  forall (front : list (list N)) (lastp : list N),
+  Forall (fun q => lenN q = k /\ bytes q) front -> 1 <= lenN lastp <= 65535 /\ bytes lastp ->
+  N.of_nat (length front) <= 65535 ->
+  forall P (pwb_decode : list N -> res P) sortF, admissible_sort sortF ->
+  forall cs', Permutation (chunks_of dev chan pseq cseq front lastp) cs' ->
+  reasm devices m sortF P pwb_decode cs' =
+  match pwb_decode (concat front ++ lastp) with Ok p => Ok p | Err _ => Err E_PAYLOAD | Panic => Panic end.
+Proof. exact split_reasm. Qed.
+Print Assumptions C04_split_reasm.
+
 (* the hypotheses on the sort are satisfiable: the insertion sort used by the executable model *)
 Theorem C04_isort_admissible : admissible_sort isort_by_id.
 Proof. exact isort_admissible. Qed.
